@@ -67,6 +67,7 @@ class GoZero (α : Type) where
 
 instance : GoZero Int := ⟨0⟩
 instance : GoZero Ref := ⟨⟨0⟩⟩
+instance : GoZero Unit := ⟨()⟩
 instance : GoZero Bool := ⟨false⟩
 instance : GoZero String := ⟨""⟩
 instance : GoZero Rat := ⟨0⟩
